@@ -18,7 +18,8 @@ RULE = ("generated interface family (1..3 target namespaces, nested sequence/cho
         ' ; float/double elements, list items and attributes given INF, -INF, NaN and the extremes'
         ' ; a name shared by an inherited attribute and an element (each written by its own declaration)'
         ' ; header lists mixing Elements and values; tuples for repeated elements'
-        ' ; the foreign-typed wrapper stream shared with C08')
+        ' ; the foreign-typed wrapper stream shared with C08'
+        ' ; the same raw Element argument given to several requests; blocks that bind nothing to their own namespace')
 ASSUMPTIONS = ["leaf lexical forms are compared by value per XSD type (the translators themselves are C06)",
                "alphabet: a None is passed only where the schema allows absence or nil; a repeating member of "
                "array type (list of lists) and content-free objects are not generated",
